@@ -886,6 +886,7 @@ func trackRun(e *Env) {
 
 	uniq := 0
 	nickSeq := 0
+	netjoins := 0
 	settle := func() {
 		// quiescence: everything the server sent has been read and dispatched,
 		// and the client's own (possibly flood-limited) queries have drained: no
@@ -1003,7 +1004,21 @@ func trackRun(e *Env) {
 			queries = nil
 			continue
 		}
-		switch k := g.S.ChooseW(4, 2, 5, 4, 2, 3, 3, 6, 1, 2); {
+		switch k := g.S.ChooseW(4, 2, 5, 4, 2, 3, 3, 6, 1, 2, 1); {
+		case k == 10 && len(onChans) > 0 && netjoins < 1 && !adversary:
+			// a netjoin: dozens of users the client has never seen join at once,
+			// so that its questions about them pile up in the output queue
+			netjoins++
+			ch := pick(onChans)
+			nj := 25 + g.S.Choose(30)
+			e.S.Count("fault.netjoin-burst")
+			for j := 0; j < nj; j++ {
+				nickSeq++
+				nm := fmt.Sprintf("nj%d", nickSeq)
+				u := &netUser{nick: nm, ident: "id" + nm, host: nm + ".host.sim", name: "Real " + nm}
+				net.users = append(net.users, u)
+				net.evJoinOther(u, ch)
+			}
 		case k == 0 && len(offChans) > 0:
 			net.evJoinMe(pick(offChans))
 		case k == 1 && len(onChans) > 0:
@@ -1050,6 +1065,24 @@ func trackRun(e *Env) {
 				neu := fmt.Sprintf("%s%d", strings.TrimRight(u.nick, "0123456789"), nickSeq)
 				if u == net.me {
 					neu = fmt.Sprintf("me%d", nickSeq)
+				}
+				if g.S.Choose(4) == 0 {
+					// nothing but the letter case changes (servers allow it: the
+					// user keeps the nick and respells it)
+					b := []byte(u.nick)
+					for i, c := range b {
+						if c >= 'a' && c <= 'z' {
+							b[i] = c - 32
+							break
+						} else if c >= 'A' && c <= 'Z' {
+							b[i] = c + 32
+							break
+						}
+					}
+					if string(b) != u.nick {
+						neu = string(b)
+						e.S.Count("probe.case-only-nick-change")
+					}
 				}
 				net.evNick(u, neu)
 			}
